@@ -1,4 +1,4 @@
-#!/usr/bin/env python3
+#!/usr/bin/env python3-vt
 """Regenerates MANIFEST.json from props/*.py (single source of truth for what is claimed)."""
 import importlib, json, os, sys
 here = os.path.dirname(os.path.abspath(__file__))
@@ -6,11 +6,10 @@ sys.path.insert(0, here)
 ALL = [f"C{i:02d}" for i in range(1, 21)]
 checks, na = [], []
 for pid in ALL:
-    try:
-        m = importlib.import_module(f"props.{pid}")
-    except ModuleNotFoundError:
+    if not os.path.exists(os.path.join(here, "props", pid + ".py")):
         na.append({"property_id": pid, "reason": "check not built yet (contract-based verification planned; see DESIGN.md section 8)"})
         continue
+    m = importlib.import_module(f"props.{pid}")
     P = m.PROP
     if P.get("not_applicable"):
         na.append({"property_id": pid, "reason": P["not_applicable"]})
